@@ -94,11 +94,16 @@ type c04Reg struct {
 	mu      sync.Mutex
 	answer  bool
 	lookups int
+	perAddr map[common.Address]int
 }
 
-func (r *c04Reg) CheckProviderRegistered(context.Context, common.Address) bool {
+func (r *c04Reg) CheckProviderRegistered(_ context.Context, a common.Address) bool {
 	r.mu.Lock()
 	defer r.mu.Unlock()
+	if r.perAddr == nil {
+		r.perAddr = map[common.Address]int{}
+	}
+	r.perAddr[a]++
 	r.lookups++
 	return r.answer
 }
@@ -116,7 +121,7 @@ func (c *c04Conn) Stat() network.ConnStats {
 
 type c04Stream struct {
 	network.Stream
-	rd        *bytes.Reader
+	rd        io.Reader
 	wr        bytes.Buffer
 	conn      *c04Conn
 	writes    int
@@ -402,6 +407,121 @@ func TestVerifC04(t *testing.T) {
 	c04Generate(t, out, false)
 }
 
+// a remote whose second frame arrives only when it chooses
+type c04GateReader struct {
+	first, rest []byte
+	gate        chan struct{}
+	hit         chan struct{}
+	once        sync.Once
+}
+
+func (g *c04GateReader) Read(p []byte) (int, error) {
+	if len(g.first) > 0 {
+		n := copy(p, g.first)
+		g.first = g.first[n:]
+		return n, nil
+	}
+	g.once.Do(func() { close(g.hit) })
+	<-g.gate
+	if len(g.rest) == 0 {
+		return 0, io.EOF
+	}
+	n := copy(p, g.rest)
+	g.rest = g.rest[n:]
+	return n, nil
+}
+
+// c04Overlap: two inbound handshakes on one node at the same time.  Remote A (a bidder) has sent
+// its request and is slow with its acknowledgement; meanwhile remote B (a staked provider)
+// completes its handshake; then A finishes.  Each must be admitted with the role *it* signed.
+func c04Overlap(t *testing.T, out *vout, rng *vrng, rounds int) {
+	hx := func(b []byte) string { return hex.EncodeToString(b) }
+	mkKey := func() *ecdsa.PrivateKey {
+		for {
+			k, err := crypto.ToECDSA(rng.bytes(32))
+			if err == nil {
+				return k
+			}
+		}
+	}
+	local := mkKey()
+	ownAddr := crypto.PubkeyToAddress(local.PublicKey)
+	reg := &c04Reg{answer: true}
+	hs, err := handshake.New(mockkeysigner.NewMockKeySigner(local, ownAddr), p2p.PeerTypeProvider, "token-local", signer.New(), reg, GetEthAddressFromPeerID)
+	if err != nil {
+		t.Fatal(err)
+	}
+	sign := func(k *ecdsa.PrivateKey, msg string) []byte {
+		s, _ := crypto.Sign(crypto.Keccak256([]byte(msg)), k)
+		return s
+	}
+	type remote struct {
+		key  *ecdsa.PrivateKey
+		pid  peer.ID
+		role string
+		req  c04Frame
+	}
+	mkRemote := func(role string) remote {
+		k := mkKey()
+		lk, _ := libp2pcrypto.UnmarshalSecp256k1PrivateKey(util.PadKeyTo32Bytes(k.D))
+		id, _ := peer.IDFromPrivateKey(lk)
+		return remote{k, id, role, c04Frame{T: "req", Role: hx([]byte(role)), Token: hx([]byte("tok")), Sig: hx(sign(k, role+"tok"))}}
+	}
+	echo := c04Frame{T: "resp", Observed: hx(ownAddr.Bytes()), Role: hx([]byte("provider"))}
+	for r := 0; r < rounds; r++ {
+		roles := [][2]string{{"bidder", "provider"}, {"provider", "bidder"}, {"bidder", "bootnode"}}[r%3]
+		A, B := mkRemote(roles[0]), mkRemote(roles[1])
+		gr := &c04GateReader{first: c04FrameBytes(A.req), rest: c04FrameBytes(echo), gate: make(chan struct{}), hit: make(chan struct{})}
+		sa := &c04Stream{rd: gr, conn: &c04Conn{pid: A.pid}, writeFail: -1}
+		sb := &c04Stream{rd: bytes.NewReader(append(c04FrameBytes(B.req), c04FrameBytes(echo)...)), conn: &c04Conn{pid: B.pid}, writeFail: -1}
+		type res struct {
+			p   *p2p.Peer
+			err error
+		}
+		ra := make(chan res, 1)
+		go func() {
+			p, err := hs.Handle(context.Background(), newStream(sa, nil, nil), A.pid)
+			ra <- res{p, err}
+		}()
+		select {
+		case <-gr.hit:
+		case <-time.After(2 * time.Second):
+		}
+		pb, errB := hs.Handle(context.Background(), newStream(sb, nil, nil), B.pid)
+		close(gr.gate)
+		var a res
+		select {
+		case a = <-ra:
+		case <-time.After(2 * time.Second):
+			a = res{nil, errors.New("stuck")}
+		}
+		for _, x := range []struct {
+			rm  remote
+			st  *c04Stream
+			p   *p2p.Peer
+			err error
+		}{{A, sa, a.p, a.err}, {B, sb, pb, errB}} {
+			addr := crypto.PubkeyToAddress(x.rm.key.PublicKey)
+			pa := hx(addr.Bytes())
+			in := &c04In{Tag: "overlapping-inbound", Inbound: true, Level: "service", LocalRole: 1, OwnAddr: hx(ownAddr.Bytes()),
+				OwnRole: hx([]byte("provider")), OwnToken: hx([]byte("token-local")), OwnSig: hx(sign(local, "provider"+"token-local")),
+				PeerAddr: &pa, Registered: true, Remote: []c04Frame{x.rm.req, echo}, WriteFail: -1,
+				Prims: []c04Verify{c04Prim(sign(x.rm.key, x.rm.role+"tok"), []byte(x.rm.role+"tok"))}}
+			obs := c04Obs{Written: []c04Frame{}}
+			if x.err != nil || x.p == nil {
+				obs.Outcome, obs.Class = "refused", "other"
+			} else {
+				obs.Outcome, obs.Addr, obs.Role = "admitted", hx(x.p.EthAddress.Bytes()), int(x.p.Type)
+			}
+			reg.mu.Lock()
+			obs.Lookups = reg.perAddr[addr]
+			reg.mu.Unlock()
+			obs.Written = c04Decode(x.st.wr.Bytes())
+			out.emitAs("C04", in, obs)
+		}
+	}
+}
+
 // c04Generate emits the handshake cases.  blockCells: only the caller-level cells that end in a
 // refusal or admission of a provider / bidder with a well-formed echo — the cells that decide
 // which block, if any, a failed handshake places (used by the C17 check as well).
@@ -536,6 +656,9 @@ func c04Generate(t *testing.T, out *vout, blockCells bool) {
 				}
 			}
 		}
+	}
+	if !blockCells {
+		c04Overlap(t, out, rng, vcount(12, 120))
 	}
 	// truncations, wrong frame kinds, write failures, non-secp256k1 transport identity
 	for _, level := range []string{"service", "caller"} {
